@@ -76,7 +76,10 @@ class Visitor:
         :raises JaqalError: If there is no matching visitor method and the default visitor has not been overriden.
         """
         method_name = self._resolve_method_name(obj)
-        return getattr(self, method_name)(obj, *args, **kwargs)
+        try:
+            return getattr(self, method_name)(obj, *args, **kwargs)
+        except RecursionError:
+            raise JaqalError("Circuit is nested too deeply to process") from None
 
     def _resolve_method_name(self, obj):
         """Find a method to call by tracing the object's MRO. If no method is found in this visitor,
